@@ -85,7 +85,7 @@ CLAIMED["C06"] = ("§3 C06",
 
 CLAIMED["C01"] = ("§3 C01",
     "per-case must-pass analysis of the two conjunct dispatchers (unshare or delegation on every path through an accumulating case), CFG gates on shareIfPossible, map-iteration order-leak classification over evaluator/compiler/build/load",
-    "Narrow: decides that every accumulating case of nodeContext.scheduleConjunct / insertValueConjunct excludes structure sharing (n.unshare() or delegation) on every path, that share() is reached only past the noSharing/isShared/no-arcs/no-errors guards and unshare is sticky, that no map iteration in internal/core/adt, internal/core/compile, cue/build and cue/load feeds an unsorted order-sensitive sink, and the decision table of the scalar merge in insertValueConjunct (the first scalar is recorded; a later one of the same priority is compared for equality and never replaces it; only a strictly higher layer priority overrides), and that the `*Top` arm of insertValueConjunct writes no node state other than hasTop, the typo checker's conjunct info and statistics counters, directly or through the methods it calls (`x & _` leaves the state `x` leaves; the defect found — `_` released held-back cyclic conjuncts — was repaired in /repo, fix: 022cc54). It does not decide commutativity, associativity or idempotence of the values computed (scheduler, disjunction cross product, closedness evidence).",
+    "Narrow: decides that every accumulating case of nodeContext.scheduleConjunct / insertValueConjunct excludes structure sharing (n.unshare() or delegation) on every path, that share() is reached only past the noSharing/isShared/no-arcs/no-errors guards and unshare is sticky, that no map iteration in internal/core/adt, internal/core/compile, cue/build and cue/load feeds an unsorted order-sensitive sink, and the decision table of the scalar merge in insertValueConjunct (the first scalar is recorded; a later one of the same priority is compared for equality and never replaces it; only a strictly higher layer priority overrides), and that the `*Top` arm of insertValueConjunct writes no node state other than hasTop, the typo checker's conjunct info and statistics counters, directly or through the methods it calls (`x & _` leaves the state `x` leaves; the defect found — `_` released held-back cyclic conjuncts — was repaired in /repo, fix: 022cc54), and that every return of a still-pending arc by (*Vertex).lookup in attemptOnly mode requests a retry of the resolving task (one known finding: the return taken while allTasksCompleted tasks are outstanding does not, and a conjunct is dropped depending on declaration order). It does not decide commutativity, associativity or idempotence of the values computed (scheduler, disjunction cross product, closedness evidence).",
     "order independence of the computed values is value-level and not claimed")
 
 CLAIMED["C03"] = ("§0.6 / §4 C03",
